@@ -16,7 +16,8 @@
 (*   {"op":"open","seq":n,"c":c,"tr":"tcp|http","n":k,"res":{connected}}   *)
 (*   {"op":"send","seq":n,"c":c,"cls":class,"res":{sent}}                  *)
 (*   {"op":"finish","seq":n,"c":c,"res":{"outs":[{out,status,rows,..}..]}} *)
-(*   {"op":"end","seq":n,"res":{"panics":[..],"server_exited":b}}          *)
+(*   {"op":"end","seq":n,"res":{"panics":[..],"server_exited":b,           *)
+(*                              "tcp_exited":b}}                           *)
 (*   {"op":"hang",..}                      driver watchdog                 *)
 (***************************************************************************)
 EXTENDS Ribbit, TLC, Json, IOUtils
@@ -161,11 +162,15 @@ Step ==
               /\ devs' = AddDevs(devs, j, l)
               /\ UNCHANGED <<exhausted, ended, nquery, nrows>>
            ELSE IF e.op = "end" THEN
-              \* never crashes: no panic on a server thread, the server task is still running
-              LET good == e.res.panics = <<>> /\ ~e.res.server_exited IN
+              \* never crashes: no panic on a server thread, both listener tasks are still running
+              LET clean == e.res.panics = <<>> /\ ~e.res.server_exited
+                  \* F15g: the TCP accept loop returned at the first accept error
+                  devG  == clean /\ e.res.tcp_exited /\ Known("F15g") /\ exhausted
+                  good  == clean /\ (~e.res.tcp_exited \/ devG) IN
               /\ viol' = IF good /\ seqok THEN viol ELSE Append(viol, l)
+              /\ devs' = IF devG THEN Append(devs, <<l, "F15g">>) ELSE devs
               /\ ended' = TRUE
-              /\ UNCHANGED <<raw, exhausted, devs, nquery, nrows>>
+              /\ UNCHANGED <<raw, exhausted, nquery, nrows>>
            ELSE
               /\ viol' = Append(viol, l)
               /\ UNCHANGED <<raw, exhausted, devs, ended, nquery, nrows>>
